@@ -1,6 +1,7 @@
 import Driver.Util
 import Driver.FramingD
 import XcmModel.Btcp
+import XcmModel.TcpOpts
 namespace Driver.BtcpD
 open XcmModel XcmModel.Btcp Driver
 
@@ -20,7 +21,23 @@ def render (s : St) (txBefore : Nat) (r : Res) : String :=
     | .err e => s!"-1 {FramingD.errName e} | -"
   s!"{res} | {s.cnt.toApp} {s.cnt.fromApp} {s.cnt.toLower} {s.cnt.fromLower} | {showState s.state} | tx+{showBytes (s.tx.drop txBefore)}"
 
-def step (s0 : St) (ws : List String) : St × String :=
+def showOpts (o : TcpOpts.Opts) : String :=
+  s!"{if o.keepalive then 1 else 0},{o.time},{o.interval},{o.count},{o.userTimeout}"
+
+def showTcp (t : TcpOpts.St) : String :=
+  let a := match t.applied with | some o => showOpts o | none => "-"
+  s!"d={showOpts t.desired} a={a}"
+
+/-- option bookkeeping across the state transitions of `try_establish` -/
+def track (before after : CState) (t : TcpOpts.St) : TcpOpts.St :=
+  let t1 := if before = .resolving ∧ (after = .connecting ∨ after = .ready) then TcpOpts.beginConnect t else t
+  if after = .ready ∧ before ≠ .ready then TcpOpts.finishConnect t1 else t1
+
+structure D where
+  s : St
+  t : TcpOpts.St := {}
+
+def stepB (s0 : St) (ws : List String) : St × String :=
   let s : St := { s0 with tx := [], rxd := [] }
   match ws with
   | ["N", st] =>
@@ -47,6 +64,30 @@ def step (s0 : St) (ws : List String) : St × String :=
   | ["SU", cond] => (s, s!"fd={serverUpdate cond.toNat!}")
   | _ => (s, "bad-op")
 
-def main : IO Unit := runLoop step ({ state := .ready } : St)
+def step (d : D) (ws : List String) : D × String :=
+  match ws with
+  | ["N", st] =>
+    let (s', o) := stepB d.s ws
+    let t0 : TcpOpts.St := {}
+    let t := if st == "connecting" then TcpOpts.beginConnect t0
+             else if st == "resolving" then t0
+             else TcpOpts.accept t0
+    ({ s := s', t := t }, o)
+  | ["O", name, v] =>
+    let iv := v.toInt!
+    let (t', r) :=
+      if name == "keepalive" then TcpOpts.setKeepalive d.t (iv ≠ 0)
+      else if name == "time" then TcpOpts.setField d.t .time iv
+      else if name == "interval" then TcpOpts.setField d.t .interval iv
+      else if name == "count" then TcpOpts.setField d.t .count iv
+      else TcpOpts.setField d.t .userTimeout iv
+    let rs := match r with | .ok => "0" | .einval => "-1 EINVAL"
+    ({ d with t := t' }, s!"{rs} | {showTcp t'}")
+  | ["A"] => (d, showTcp d.t)
+  | _ =>
+    let (s', o) := stepB d.s ws
+    ({ s := s', t := track d.s.state s'.state d.t }, o)
+
+def main : IO Unit := runLoop step ({ s := { state := .ready }, t := TcpOpts.accept {} } : D)
 
 end Driver.BtcpD
